@@ -70,20 +70,20 @@ Proof. exact (call_fidelity_lemma spyne_leaf spyne_leaf_sound). Qed.
     and a header; all hypotheses hold and the three conclusions compute. *)
 Definition lt_int : ltype := lt_integer.
 Definition ex_U0 : universe :=
-  [ mkcls [117] [72] None [ mkfield [116] (TLeaf lt_string) 0 (Some 1) true KElem ];
+  [ mkcls [117] [72] None [ mkfield [116] (TLeaf lt_string) 0 (Some 1) true KElem None None ];
     mkcls [117] [75] None
-      [ mkfield [105] (TLeaf lt_int) 1 (Some 1) true KAttr;
-        mkfield [120] (TLeaf lt_boolean) 0 None true KElem ] ].
+      [ mkfield [105] (TLeaf lt_int) 1 (Some 1) true KAttr None None;
+        mkfield [120] (TLeaf lt_boolean) 0 None true KElem None None ] ].
 Definition ex_Sv : service :=
   mkservice [117; 114; 110; 58; 116]
     [ mkmethod [111; 112; 49] SWrapped
-        [ mkfield [97] (TLeaf lt_int) 0 (Some 1) true KElem; mkfield [98] (TRef 1%nat) 0 (Some 2) true KElem ]
-        [ mkfield [] (TLeaf lt_string) 0 (Some 1) true KElem; mkfield [] (TRef 1%nat) 0 (Some 1) true KElem ]
+        [ mkfield [97] (TLeaf lt_int) 0 (Some 1) true KElem None None; mkfield [98] (TRef 1%nat) 0 (Some 2) true KElem None None ]
+        [ mkfield [] (TLeaf lt_string) 0 (Some 1) true KElem None None; mkfield [] (TRef 1%nat) 0 (Some 1) true KElem None None ]
         [0%nat] [0%nat];
-      mkmethod [111; 112; 50] SBare [ mkfield [107] (TRef 1%nat) 0 (Some 1) true KElem ]
-        [ mkfield [] (TLeaf lt_int) 0 (Some 1) true KElem ] [] [];
-      mkmethod [111; 112; 51] SOutBare [ mkfield [97] (TLeaf lt_int) 0 (Some 1) true KElem ]
-        [ mkfield [] (TRef 1%nat) 0 (Some 1) true KElem ] [] [] ].
+      mkmethod [111; 112; 50] SBare [ mkfield [107] (TRef 1%nat) 0 (Some 1) true KElem None None ]
+        [ mkfield [] (TLeaf lt_int) 0 (Some 1) true KElem None None ] [] [];
+      mkmethod [111; 112; 51] SOutBare [ mkfield [97] (TLeaf lt_int) 0 (Some 1) true KElem None None ]
+        [ mkfield [] (TRef 1%nat) 0 (Some 1) true KElem None None ] [] [] ].
 Definition ex_m : method := nth 0 (s_methods ex_Sv) (mkmethod [] SWrapped [] [] [] []).
 Definition ex_args : list val := [VNone; VList []].
 Definition ex_hv : option (list val) := Some [VObj 0%nat [VLeaf (LText [104; 105])]].
@@ -111,3 +111,57 @@ Example C01_ex_call :
      | _ => false
      end = true.
 Proof. vm_compute. repeat split; reflexivity. Qed.
+
+(** The statement about DOCUMENTS.  A request (response) on the wire is a sequence of character data,
+    elements, comments and processing instructions ([dnode]); what it denotes under XML Schema is its
+    comment- and PI-free reading ([denoted]); what the protocol is handed is what its lxml parser builds
+    with the options of XmlDocument.__init__ ([parsed], generated flags).  Under the hypotheses of
+    C01_call_fidelity, EVERY document that denotes the client's request makes the server invoke [f] exactly
+    once with the sent values, and every document that denotes the response is read back as the returned
+    value: comments / PIs between the items of an array or inside character data change nothing. *)
+Theorem C01_call_documents : forall L : leaf_codec, leaf_sound L ->
+  forall (P : proto) (V : vmode) (schema_valid : xnode -> bool) (U0 : universe) (Sv : service) (fuel : nat),
+  wf_universe (synth U0 Sv) = true ->
+  nodup_text (map m_name (s_methods Sv)) = true ->
+  s_tns Sv <> env_ns P ->
+  forall (i : nat) (m : method) (f : ufun) (hv : option (list val)) (args : list val) (ret : val) (oh : option (list val)),
+  nth_error (s_methods Sv) i = Some m ->
+  hdr_distinct (synth U0 Sv) (m_in_header m) = true ->
+  hdr_distinct (synth U0 Sv) (m_out_header m) = true ->
+  args_conf L U0 Sv fuel i m args = true ->
+  hdrs_conf L U0 Sv fuel (m_in_header m) hv = true ->
+  (V = ValLxml -> forall e, enc L (synth U0 Sv) fuel (fst (req_ty U0 i m)) (s_tns Sv) (m_name m) (req_value U0 i m args) = Ok e ->
+                  schema_valid (wire e) = true) ->
+  f (m_name m) (seen_header P U0 Sv fuel (m_in_header m) hv) (seen_args U0 Sv fuel i m args) = (ret, oh) ->
+  ret_conf L U0 Sv fuel i m ret = true ->
+  hdrs_conf L U0 Sv fuel (m_out_header m) oh = true ->
+  exists req resp,
+    client_request L P U0 Sv fuel i m hv args = Ok req
+    /\ (forall d : dnode, denoted d = wire req ->
+        server L P V schema_valid U0 Sv fuel f (parsed d)
+        = RReturn [(m_name m, seen_header P U0 Sv fuel (m_in_header m) hv, seen_args U0 Sv fuel i m args)] resp)
+    /\ (forall d : dnode, denoted d = wire resp ->
+        client_response L P V U0 Sv fuel i m (parsed d)
+        = Ok (seen_ret U0 Sv fuel i m ret, seen_header P U0 Sv fuel (m_out_header m) oh)).
+Proof. exact call_fidelity_documents. Qed.
+
+(** non-vacuity: the request of C01_ex_call with a comment before the content of every element, a PI inside
+    every piece of character data and a comment after every child element ([decorate]) denotes that request,
+    is NOT the tree a parser that keeps comments and PIs would build, and reaches [ex_f] with the same values *)
+Example C01_ex_documents :
+  match client_request spyne_leaf PSoap12 ex_U0 ex_Sv 8 0 ex_m ex_hv ex_args with
+  | Ok req =>
+      let d := decorate (wire req) in
+      xnode_eqb (denoted d) (wire req)
+      && negb (xnode_eqb (parse_doc false false d) (wire req))
+      && match server spyne_leaf PSoap12 ValSoft (fun _ => true) ex_U0 ex_Sv 8 ex_f (parsed d) with
+         | RReturn log resp =>
+             log_eqb log [(m_name ex_m, ex_hv, [VNone; VNone])]
+             && out_eqb (fun a b => val_eqb (fst a) (fst b) && olist_eqb (snd a) (snd b))
+                        (client_response spyne_leaf PSoap12 ValSoft ex_U0 ex_Sv 8 0 ex_m (parsed (decorate (wire resp))))
+                        (Ok (ex_ret, ex_hv))
+         | _ => false
+         end
+  | _ => false
+  end = true.
+Proof. vm_compute. reflexivity. Qed.
